@@ -15,6 +15,9 @@ type CBLC struct {
 
 func (cb *CBLC) parseIndexSubTables(src []byte) error {
 	cb.IndexSubTables = make([][]BitmapSubtable, len(cb.BitmapSizes))
+	// index subtables may be referenced several times (by several strikes or several array entries):
+	// bound the total number of entries by what the table can hold (at least two bytes per entry)
+	nbEntries := 0
 	for i, size := range cb.BitmapSizes {
 		start := int(size.indexSubTableArrayOffset)
 		if L := len(src); L < start {
@@ -40,6 +43,19 @@ func (cb *CBLC) parseIndexSubTables(src []byte) error {
 			sizeSubtables[j].IndexSubHeader, _, err = ParseIndexSubHeader(src[subtableStart:], numGlyphs+1)
 			if err != nil {
 				return err
+			}
+			switch data := sizeSubtables[j].IndexData.(type) {
+			case IndexData1:
+				nbEntries += len(data.SbitOffsets)
+			case IndexData3:
+				nbEntries += len(data.SbitOffsets)
+			case IndexData4:
+				nbEntries += len(data.GlyphArray)
+			case IndexData5:
+				nbEntries += len(data.GlyphIdArray)
+			}
+			if 2*nbEntries > len(src) {
+				return fmt.Errorf("invalid index subtables: %d entries for a table of length %d", nbEntries, len(src))
 			}
 		}
 		cb.IndexSubTables[i] = sizeSubtables
